@@ -226,19 +226,21 @@ def run(ctx):
         for g in table.bodies(m):
             for _, t in g.calls():
                 if callee_is(t, 'HashMap::remove', 'HashMap::remove_entry'):
-                    rs = P.root(P.operand(g, t['args'][1]))
-                    if rs and all(r[0] == 'param' and r[1] == m.id for r, _ in rs) and m not in keyed_completing:
+                    rs = P.root(P.operand(g, t['args'][1]), through_params=table.is_helper)
+                    tm = {x.id for x in table.methods}
+                    if rs and any(r[0] == 'param' and r[1] == m.id for r, _ in rs) and all(r[0] == 'param' and r[1] in tm for r, _ in rs) \
+                            and m not in keyed_completing and not table.is_helper(m):
                         keyed_completing.append(m)
     comp = table.one(keyed_completing, 'completing removal (keyed)')
     ckey = cval = None
     for g in table.bodies(comp):
         for bb, t in g.calls():
             if callee_is(t, 'HashMap::remove', 'HashMap::remove_entry'):
-                for r, p in P.root(P.operand(g, t['args'][1])):
+                for r, p in P.root(P.operand(g, t['args'][1]), through_params=table.is_helper):
                     if r[0] == 'param' and r[1] == comp.id:
                         ckey = r[2]
             if callee_is(t, 'oneshot::Sender::send'):
-                for r, p in P.root(P.operand(g, t['args'][1])):
+                for r, p in P.root(P.operand(g, t['args'][1]), through_params=table.is_helper):
                     if r[0] == 'param' and r[1] == comp.id:
                         cval = r[2]
     R.ob('C01.4', ('client table completing removal', 'removes by its key parameter'), ckey is not None,
@@ -256,7 +258,7 @@ def run(ctx):
                 R.ob('C01.4', ('client table completing removal', 'sender is the removed entry\'s'), ok,
                      'the sender completed is the one stored in the entry just removed', [g.loc(t)])
                 rm = lambda x: any(P.is_call(r, 'HashMap::remove', 'HashMap::remove_entry') for r, _ in P.root(x))
-                gs = guarded_by_variant(F, P, g, bb, rm, ['Some'])
+                gs = guarded_by_variant(F, P, g, bb, rm, ['Some', 'Continue'])
                 R.ob('C01.4', ('client table completing removal', 'miss path has no effect'), bool(gs),
                      'completion happens only on the Some edge of the removal; a miss neither sends nor removes anything else', [g.loc(t)])
     # miss path: every mutating call other than the remove itself is on the Some edge
@@ -264,7 +266,7 @@ def run(ctx):
         for bb, t in g.calls():
             if callee_is(t, 'DelayQueue::remove', 'DelayQueue::clear', 'HashMap::insert', 'HashMap::clear', 'HashMap::drain', 'util::Compact::compact', 'HashMap::shrink_to'):
                 rm = lambda x: any(P.is_call(r, 'HashMap::remove', 'HashMap::remove_entry') for r, _ in P.root(x))
-                gs = guarded_by_variant(F, P, g, bb, rm, ['Some'])
+                gs = guarded_by_variant(F, P, g, bb, rm, ['Some', 'Continue'])
                 R.ob('C01.4', ('client table completing removal', 'mutation only on hit', strip_generics(t['callee'])), bool(gs),
                      'table mutation inside the completing removal is guarded by the hit edge', [g.loc(t)])
     # call sites of the completing removal
